@@ -489,5 +489,18 @@ func checkC09(r *Run) {
 	// duplicate tags refused) are necessary conditions of this property too and are evaluated here as well
 	checkC05(r)
 	checkC06(r)
+	// "… and all of them complete", "up to the documented wire limits": one caller's failed request write must not
+	// end the owner loop for the others (rule shared with C12); a frame of exactly msize — what a clipped write
+	// or a full read produces — is accepted by the receiving channel (rules shared with C03)
+	if owner, _ := transportRoles(p); owner != nil {
+		c12WriteFailure(r, p, owner)
+	}
+	if rm, rf := p.Fn("p9p:readmsg"), p.Fn("p9p:(*channel).ReadFcall"); rm != nil && rf != nil {
+		c03ReadFcall(r, rf, rm)
+	}
+	clientReplyTyped(r, "reply-typed")
+	// arguments and results travel through the codec: per-type layout agreement of encode/decode/size and fresh
+	// storage for decoded payloads (codec-grammar rules shared with C01)
+	c01Grammar(r)
 	r.Exhaustive = true
 }
